@@ -115,7 +115,7 @@ func (obj *NumericEstimator) Estimate(gamma ConstVector, p ThreadPool) error {
       }
     }
     g := p.NewJobGroup()
-    p.AddRangeJob(0, m, g, func(k int, p ThreadPool, erf func() error) error {
+    if err := p.AddRangeJob(0, m, g, func(k int, p ThreadPool, erf func() error) error {
       verifhook.Yield("scalarEstimator.numeric.job")
       verifhook.Event("scalarEstimator.numeric", k, p.GetThreadId())
       f := f   [p.GetThreadId()]
@@ -142,9 +142,13 @@ func (obj *NumericEstimator) Estimate(gamma ConstVector, p ThreadPool) error {
         r.Add(r, t)
       }
       return nil
-    })
+    }); err != nil {
+      return nil, err
+    }
     verifhook.Yield("scalarEstimator.numeric.queued")
-    p.Wait(g)
+    if err := p.Wait(g); err != nil {
+      return nil, err
+    }
     // sum up results from all threads
     for i := 1; i < r.Dim(); i++ {
       r.At(0).Add(r.At(0), r.At(i))
